@@ -56,9 +56,18 @@ func (r *jsonResponder) respond(ctx context.Context, w http.ResponseWriter, req 
 		return nil
 	}
 
-	// Set status code and encode response
+	// Encode before committing the status line: a result that cannot be encoded must still be
+	// answered (with an internal error), not with an empty 200.
+	data, err := json.Marshal(resp)
+	if err != nil {
+		if data, err = json.Marshal(encodingErrorResponse(resp, err)); err != nil {
+			return err
+		}
+	}
+
+	// Set status code and write response
 	w.WriteHeader(http.StatusOK)
-	if err := json.NewEncoder(w).Encode(resp); err != nil {
+	if _, err := w.Write(append(data, '\n')); err != nil {
 		return err
 	}
 
